@@ -111,13 +111,14 @@ func (c *conn) SetWriteDeadline(t time.Time) error { return nil }
 // ---------------------------------------------------------------- scenario description
 
 // op codes per thread:
-//   M<n>  WriteMessage(Text, n bytes)
-//   W<n>  NextWriter + Write(n bytes in 2 calls) + Close
-//   P     WriteControl(Ping, "pi")      O  WriteControl(Pong, "po")
-//   T     WriteControl(Ping, "pt") with a finite deadline: waiting for the write lock may time out (scheduler choice)
-//   C     WriteControl(Close, 1000 "bye")
-//   X     Conn.Close()
-//   R     ReadMessage loop until error (answers the preloaded ping with a pong)
+//
+//	M<n>  WriteMessage(Text, n bytes)
+//	W<n>  NextWriter + Write(n bytes in 2 calls) + Close
+//	P     WriteControl(Ping, "pi")      O  WriteControl(Pong, "po")
+//	T     WriteControl(Ping, "pt") with a finite deadline: waiting for the write lock may time out (scheduler choice)
+//	C     WriteControl(Close, 1000 "bye")
+//	X     Conn.Close()
+//	R     ReadMessage loop until error (answers the preloaded ping with a pong)
 type threadSpec struct {
 	Name string
 	Ops  []string
@@ -135,11 +136,11 @@ type scenarioSpec struct {
 }
 
 type callResult struct {
-	Thread       string
-	Op           string
-	StartedAfter bool // the Close frame was already completely on the wire when the call started
+	Thread        string
+	Op            string
+	StartedAfter  bool // the Close frame was already completely on the wire when the call started
 	StartedAfterX bool // the transport was already closed when the call started
-	Err          string
+	Err           string
 }
 
 type execData struct {
@@ -430,8 +431,10 @@ func run(c *hl.Ctx) {
 
 func racePass(c *hl.Ctx) {
 	sp := specs()
+	c.StartWatchdog(30 * time.Second) // a free run that never finishes (lost lock token, deadlock) ends the pass with a violation
 	for it := 0; it < 150 && !c.Expired(); it++ {
 		for i := range sp {
+			c.Case("free-running-pass/"+sp[i].Name, nil)
 			d := newExec(&sp[i], false)
 			d.c.who = func() string { return "?" }
 			var wg sync.WaitGroup
